@@ -164,14 +164,24 @@ def run(ctx):
         targets = (down if len(down) <= ctx.pick(40, 300) else rng.sample(down, ctx.pick(40, 300))) + rng.sample(up, ctx.pick(4, len(up)))
         for tgt in targets:
             trailing, series, scalar = PAYLOADS[rng.randrange(len(PAYLOADS))]
-            dtype = np.float32 if rng.random() < 0.4 else np.float64
-            arr = dy_array(rng, shape + trailing, dtype)
+            u = rng.random()
+            dtype = np.float32 if u < 0.3 else np.float64 if u < 0.7 else np.uint8 if u < 0.85 else np.uint16
+            if np.issubdtype(dtype, np.integer):
+                # integer-typed sources (photographs, indicator masks) can only be resized conservatively through the dtype option
+                arr = np.array([rng.choice([0, 0, 1, 1, 3, 200, 255]) for _ in range(int(np.prod(shape + trailing)))], dtype=dtype).reshape(shape + trailing)
+                conv = rng.choice([np.float64, np.float32])
+                opts = {"resize conservative": True, "resize dtype": conv} if rng.random() < 0.5 else {"resize conservative": True, "dtype": conv}
+            else:
+                arr = dy_array(rng, shape + trailing, dtype)
+                opts = {"resize conservative": True}
             img = image(d, arr, 2, [0.5 * shape[0], 0.25 * shape[1]], series, scalar)
             as_image = rng.random() < 0.5
             kind = "downsampling" if all(t <= s for t, s in zip(tgt, shape)) else "integer-upsampling"
+            if np.issubdtype(dtype, np.integer):
+                kind += ",integer-source+dtype-option"
             src = img if as_image else arr.copy()
             res = twice(ctx, d, f"Resize(conservative,{kind})", [src],
-                        lambda: d.Resize(shape=tgt, interpolation="inter_area", **{"resize conservative": True})(src),
+                        lambda: d.Resize(shape=tgt, interpolation="inter_area", **opts)(src),
                         {"op": "resize", "shape": shape, "target": tgt, "values": arr.ravel().tolist(), "trailing": trailing, "dtype": dtype.__name__})
             n_resize += 1
             ctx.count(("resize", shape, tgt, trailing, str(dtype)), nontrivial=tgt != shape)
